@@ -435,7 +435,9 @@ func (b *builder) stmt(fr *frame, s ast.Stmt) {
 		if _, seen := b.ex.progs[name]; !seen {
 			gpr := &Program{Name: name, Ops: []LockOp{}, Eps: [][2]int{}, Spawn: []string{}}
 			b.ex.progs[name] = gpr
-			gb := &builder{ex: b.ex, p: gpr, path: append([]*types.Func{}, b.path...)}
+			// a goroutine starts with an empty call stack: the functions being inlined at the go statement
+			// are not "in progress" for it (it may call them itself)
+			gb := &builder{ex: b.ex, p: gpr, path: []*types.Func{b.path[len(b.path)-1]}}
 			gfr := &frame{env: fr.env}
 			if lit, ok := x.Call.Fun.(*ast.FuncLit); ok {
 				gb.block(gfr, lit.Body.List)
